@@ -206,7 +206,17 @@ func WriteProgram(p *progen.Program, dir string) (string, error) {
 			return "", err
 		}
 	}
-	src := p.MRO()
+	// declarations in defs.mro, the invocation (include + top-level call) in
+	// prog.mro, as mrp is normally used
+	top := p.Top
+	p.Top = nil
+	defs := p.MRO()
+	p.Top = top
+	if err := os.WriteFile(filepath.Join(dir, "defs.mro"), []byte(defs), 0o644); err != nil {
+		return "", err
+	}
+	q := &progen.Program{Top: top}
+	src := "@include \"defs.mro\"\n\n" + strings.TrimSpace(q.MRO()) + "\n"
 	return src, os.WriteFile(filepath.Join(dir, "prog.mro"), []byte(src), 0o644)
 }
 
